@@ -32,7 +32,9 @@ Empty == [x \in {} |-> 0]
 InitSt == [pt |-> Empty,    \* net -> participant record
            wr |-> Empty,    \* writer index -> record
            rd |-> Empty,    \* reader index -> record
-           now |-> 0, healT |-> 0]
+           now |-> 0, healT |-> 0,
+           lossy |-> FALSE]   \* discovery traffic was lossy at some point of the scenario: the NUMBER of match events is then
+                              \* not determined by the API history (an endpoint may come and go unnoticed), only the final matched set is
 CntInit == [pubstatus |-> 0, substatus |-> 0, discovered |-> 0, unmatch |-> 0, scenarios |-> 0,
             removed |-> 0, rediscovered |-> 0, isolated |-> 0]
 
@@ -64,7 +66,9 @@ ExpMatched(s, w) ==
     {r \in DOMAIN s.rd : s.rd[r].alive /\ s.wr[w].alive /\ Reachable(s, s.wr[w].net, s.rd[r].net, s.now)
                          /\ ~Gone(s, s.wr[w].net, s.rd[r].net, s.now)
                          /\ Compatible(s.wr[w].q, s.rd[r].q)}
-Definite(s, a) == \A b \in DOMAIN s.pt : (a # b /\ s.pt[b].silenced >= 0) => (Gone(s, a, b, s.now) \/ Kept(s, a, b, s.now))
+Definite(s, a) == /\ \A b \in DOMAIN s.pt : (a # b /\ s.pt[b].silenced >= 0) => (Gone(s, a, b, s.now) \/ Kept(s, a, b, s.now))
+                  \* a participant deleted while the discovery traffic was lossy may be remembered by the others until its lease expires
+                  /\ \A b \in DOMAIN s.pt : (a # b /\ s.pt[b].lossyDel >= 0) => s.now > s.pt[b].lossyDel + LEASE + POKE + SETTLE
 
 \* recompute expectations after a change of the world: new matches count once
 Refresh(s) ==
@@ -77,7 +81,7 @@ Refresh(s) ==
 
 OnParticipant(s, e, c) ==
     R(Refresh([s EXCEPT !.pt = Ext(s.pt, e.net, [domain |-> e.domain, tag |-> e.tag, alive |-> TRUE, silenced |-> -1,
-                                                  lastData |-> 0, ignored |-> {}, unsilenced |-> -1])]), {}, c)
+                                                  lastData |-> 0, ignored |-> {}, unsilenced |-> -1, lossyDel |-> -1])]), {}, c)
 OnCreateWriter(s, e, c) ==
     LET w == Cardinality(DOMAIN s.wr)
     IN R(Refresh([s EXCEPT !.wr = Ext(s.wr, w, [net |-> e.net, q |-> e.q, alive |-> e.ok = 1, exp |-> {}, tot |-> 0,
@@ -99,7 +103,7 @@ OnUnsilence(s, e, c) ==
                                                ELSE s.pt[p]]], {}, c)
 OnDeleteParticipant(s, e, c) ==
     IF e.net \in DOMAIN s.pt
-    THEN R(Refresh([s EXCEPT !.pt[e.net].alive = FALSE,
+    THEN R(Refresh([s EXCEPT !.pt[e.net].alive = FALSE, !.pt[e.net].lossyDel = IF s.lossy THEN e.t ELSE -1,
                              !.rd = [r \in DOMAIN s.rd |-> IF s.rd[r].net = e.net THEN [s.rd[r] EXCEPT !.alive = FALSE, !.died = e.t] ELSE s.rd[r]],
                              !.wr = [w \in DOMAIN s.wr |-> IF s.wr[w].net = e.net THEN [s.wr[w] EXCEPT !.alive = FALSE] ELSE s.wr[w]]]),
            {}, Bump(c, "unmatch"))
@@ -119,9 +123,10 @@ StatusRules(kind, rec, e, s0, a) ==
     IN IF ~Definite(s, a) THEN {} ELSE
        (IF e.cur # cur THEN {"C16:current-count-differs-from-matched-set"} ELSE {})
        \cup (IF e.n # cur THEN {"C16:matched-endpoints-list-differs-from-expected-set"} ELSE {})
-       \cup (IF e.tot # x.tot THEN {"C16:total-count-differs-from-number-of-match-events"} ELSE {})
-       \cup (IF e.curChg # cur - x.readCur THEN {"C16:current-count-change-wrong"} ELSE {})
-       \cup (IF e.totChg # x.tot - x.readTot THEN {"C16:total-count-change-wrong"} ELSE {})
+       \cup (IF ~s.lossy /\ e.tot # x.tot THEN {"C16:total-count-differs-from-number-of-match-events"} ELSE {})
+       \cup (IF ~s.lossy /\ e.curChg # cur - x.readCur THEN {"C16:current-count-change-wrong"} ELSE {})
+       \cup (IF ~s.lossy /\ e.totChg # x.tot - x.readTot THEN {"C16:total-count-change-wrong"} ELSE {})
+       \cup (IF s.lossy /\ e.tot < cur THEN {"C16:total-count-below-current-count"} ELSE {})
 
 OnPubStatus(s, e, c) ==
     IF e.i \notin DOMAIN s.wr \/ e.err = 1 THEN R(s, {}, c)
@@ -162,7 +167,7 @@ OnSend(s, e, c) ==
     LET ws == {w \in DOMAIN s.wr : s.wr[w].net = e.from}
         dead == {r \in DOMAIN s.rd : s.rd[r].net = e.to /\ ~s.rd[r].alive /\ s.rd[r].died >= 0 /\ e.t > s.rd[r].died + SETTLE}
         live == {r \in DOMAIN s.rd : s.rd[r].net = e.to /\ s.rd[r].alive}
-    IN R(s, IF e.meta = 0 /\ ws # {} /\ dead # {} /\ live = {} /\ e.hasdata = 1
+    IN R(s, IF ~s.lossy /\ e.meta = 0 /\ ws # {} /\ dead # {} /\ live = {} /\ e.hasdata = 1
             THEN {"C16:data-or-heartbeat-addressed-to-departed-reader"} ELSE {}, c)
 
 Apply(s0, e, c) ==
@@ -177,6 +182,7 @@ Apply(s0, e, c) ==
       [] e.ev = "Unsilence" -> OnUnsilence(s, e, c)
       [] e.ev = "DeleteParticipant" -> OnDeleteParticipant(s, e, c)
       [] e.ev = "Ignore" -> OnIgnore(s, e, c)
+      [] e.ev = "MetaFaults" -> R([s EXCEPT !.lossy = @ \/ e.on = 1], {}, c)
       [] e.ev = "DeliverData" -> OnDeliverData(s, e, c)
       [] e.ev = "PubStatus" -> OnPubStatus(s, e, c)
       [] e.ev = "SubStatus" -> OnSubStatus(s, e, c)
